@@ -853,6 +853,22 @@ fn fail_if_present<T, R>(
     }
 }
 
+// Diverts to failure if a non-inline function of this name was already seen.
+fn fail_if_in_parentfns(
+    loc: Srcloc,
+    compiler: &PrimaryCodegen,
+    name: &[u8],
+) -> Result<(), CompileErr> {
+    if compiler.parentfns.contains(name) {
+        Err(CompileErr(
+            loc.clone(),
+            format!("Cannot redefine {}", SExp::Atom(loc, name.to_owned())),
+        ))
+    } else {
+        Ok(())
+    }
+}
+
 fn codegen_(
     context: &mut BasicCompileContext,
     opts: Rc<dyn CompilerOpts>,
@@ -1632,11 +1648,18 @@ fn dummy_functions(compiler: &PrimaryCodegen) -> Result<PrimaryCodegen, CompileE
     fold_m(
         &|compiler: &PrimaryCodegen, form: &HelperForm| match form {
             HelperForm::Defun(false, defun) => {
+                // An inline function of the same name would otherwise be
+                // expanded wherever this function is called or referenced.
+                fail_if_present(defun.loc.clone(), &compiler.inlines, &defun.name, ())?;
+                fail_if_in_parentfns(defun.loc.clone(), compiler, &defun.name)?;
                 let mut c_copy = compiler.clone();
                 c_copy.parentfns.insert(defun.name.clone());
                 Ok(c_copy)
             }
             HelperForm::Defun(true, defun) => Ok(compiler)
+                .and_then(|comp| {
+                    fail_if_in_parentfns(defun.loc.clone(), compiler, &defun.name).map(|_| comp)
+                })
                 .and_then(|comp| {
                     fail_if_present(defun.loc.clone(), &compiler.inlines, &defun.name, comp)
                 })
